@@ -153,6 +153,7 @@ class Runner(object):
         self.ever_evicted = set()
         self.flags = set()
         self.seen = {}           # skey -> key, every key this history computed
+        self.assigned = None     # archive object attached later through f.archive(...)
         self.c07_reported = set()
 
     # -- construction -------------------------------------------------------------------
@@ -372,6 +373,7 @@ class Runner(object):
             new = klepto._archives.dict_archive()
             f.archive(new)
             self.arch_obj = new
+            self.assigned = new
             self.retr.clear()   # the user replaced the archive: nothing is owed from the old one
         elif kind == 'overfill':
             # direct mutation of the in-memory cache with *correct* entries
@@ -400,8 +402,22 @@ class Runner(object):
         return self.summarize(op, outcome, s1)
 
     # -- management ops ---------------------------------------------------------------------
+    def check_attached_identity(self):
+        """the archive the user attached with f.archive(X) must be the one in use whenever archiving is on"""
+        if self.assigned is None:
+            return
+        self.note('attached_identity_checks')
+        c = self.cache()
+        if self.f.archived() and getattr(c, 'archive', None) is not self.assigned:
+            for prop in ('C07', 'C02'):
+                self.violation(prop, 'wrong-archive-attached',
+                               'archiving is on but the attached archive is not the one set with f.archive(...): '
+                               'evicted and dumped results go to a replaced archive')
+            self.assigned = None
+
     def check_management(self, kind, op, s0, s1):
         self.note('mgmt_ops')
+        self.check_attached_identity()
         if s1['nlog'] != s0['nlog']:
             self.violation('C02', 'management-op-evaluated',
                            '%s evaluated the wrapped function' % kind)
@@ -521,6 +537,10 @@ class Runner(object):
                 self.violation('C16', 'safe-not-degraded',
                                'safe decorator raised %s for un-keyable arguments %s/%s'
                                % (type(raised).__name__, srepr(args), srepr(kwds)), mech=mech)
+            elif self.cfg['safe'] and self.cnt.get('calls_degraded', 0) and isinstance(raised, TypeError):
+                self.violation('C16', 'safe-decorator-failed-after-unkeyable-call',
+                               'a later, ordinary call %s/%s raised %s: %s after an un-keyable call was made through '
+                               'the safe decorator' % (srepr(args), srepr(kwds), type(raised).__name__, str(raised)[:100]))
             return
         if not (result == expect):
             self.violation('C01', 'wrong-result',
@@ -801,6 +821,7 @@ class Runner(object):
     def do_reopen(self, i, op, s0):
         b = self.backend
         self.gen += 1
+        self.assigned = None
         if b['kind'] not in ('dict', 'null', 'dict_archive') and not b.get('memory'):
             self.arch_obj = gen.build_archive(klepto, b, self.root)   # a new handle
         old_log = self.probe.log
@@ -925,7 +946,7 @@ def gen_history(rng, focus, cfg, pool, n, ms):
         pattern = rng.choice(['long_hits', 'long_hits', 'resident_walk', 'zipf'])
     recent = []
     mgmt_p = {'C01': 0.15, 'C02': 0.15, 'C05': 0.2, 'C06': 0.03, 'C07': 0.1, 'C15': 0.25,
-              'C16': 0.05, 'C18': 0.05, 'C20': 0.0}.get(focus, 0.1)
+              'C16': 0.05, 'C18': 0.05, 'C20': 0.08}.get(focus, 0.1)
     raise_p = {'C16': 0.25, 'C15': 0.08}.get(focus, 0.0)
     intro_p = 0.3 if focus == 'C18' else 0.0
     weights = [1.0 / (j + 1) for j in range(len(pool))]
@@ -980,6 +1001,8 @@ def gen_mgmt(rng, focus, cfg, pool, has_arch):
     if has_arch:
         choices += [['dump'], ['dump', sub], ['load', sub], ['archived', 0], ['archived', 1],
                     ['archived', 1], ['reopen']]
+        if focus in ('C02', 'C07'):
+            choices += [['swaparchive'], ['archived', 0]]
         if focus in ('C01', 'C05', 'C15', 'C07'):
             choices += [['load'], ['archfill', [[enc(c[0]), enc(c[1])] for c in pool]],
                         ['swaparchive']]
@@ -989,6 +1012,8 @@ def gen_mgmt(rng, focus, cfg, pool, has_arch):
         choices += [['overfill', [[enc(c[0]), enc(c[1])] for c in pool]]]
     if focus in ('C06',):
         choices = [['clear', None], ['clear', 1]] + ([['dump']] if has_arch else [])
+    if focus == 'C20':
+        choices = [['clear', 1]] + ([['archived', 0], ['archived', 1], ['archived', 1], ['dump']] if has_arch else [])
     return rng.choice(choices)
 
 
